@@ -233,6 +233,11 @@ static Outcome run(tape_t const& tape)
             }
         };
         int result = -12345;
+        // "the runtime can be started again any number of times": a start that throws is the violation, not a harness problem
+        auto start_failed = [&](char const* what, std::exception const& e) {
+            fail_now("runtime_cannot_be_started", "incarnation #" + std::to_string(k + 1) + " of " + std::to_string(c.inc.size()) + " in this process: " + what + " threw: " + e.what() +
+                    (k ? " (the previous incarnations were started, finalized and stopped normally)" : ""));
+        };
         if (in.entry == 2)
         {
             // pika::init: everything happens inside pika_main
@@ -247,7 +252,8 @@ static Outcome run(tape_t const& tape)
                 if (in.finalizer == 2) do_finalize_from(2); else pika::finalize();
                 return in.ret;
             };
-            result = pika::init(std::function<int(int, char**)>(f), argc, ah.p.data());
+            try { result = pika::init(std::function<int(int, char**)>(f), argc, ah.p.data()); }
+            catch (std::exception const& e) { if (entry_ran.load() == 0) start_failed("pika::init", e); throw; }
             q.finish();
         }
         else
@@ -263,9 +269,14 @@ static Outcome run(tape_t const& tape)
                     while (std::chrono::steady_clock::now() < t_end) pika::this_thread::yield();
                     return in.ret;
                 };
-                pika::start(std::function<int(int, char**)>(f), argc, ah.p.data());
+                try { pika::start(std::function<int(int, char**)>(f), argc, ah.p.data()); }
+                catch (std::exception const& e) { start_failed("pika::start", e); }
             }
-            else pika::start(nullptr, argc, ah.p.data());
+            else
+            {
+                try { pika::start(nullptr, argc, ah.p.data()); }
+                catch (std::exception const& e) { start_failed("pika::start", e); }
+            }
             q.start();
             err = run_steps(in, ip, false, submitted);
             q.enter_stop_mode([&] {
